@@ -101,14 +101,120 @@ def run(pid, tier):
                 continue
             R.violation(dict(kind="respell_pair", plain=a, respelled=b, tokens_plain=tt(oa), tokens_respelled=tt(ob),
                              exc=[oa["exc"], ob["exc"]], predicted=pred))
+    program_level(R, tier)
     R.assumptions += ["respellings are faithful: decoding the respelled text by the C rules gives back the plain text",
                       "splices are inserted only at boundaries between two tokens of the plain run"]
     return R.finish()
 
 
+# ------------------------------------------------------------------------------------------------ program level
+def prog_corpus(tier, kind, withviol):
+    import normgen
+    from common import seed as verif_seed
+    sd = verif_seed()
+    n = {("quick", "c"): 800, ("quick", "h"): 160, ("thorough", "c"): 8000, ("thorough", "h"): 1600}[(tier, kind)]
+    k = cache.key("respellprog", kind, withviol, n, sd)
+    c = cache.get(k)
+    if c is not None:
+        return [lexmodel.Stat(s) for s in c["stats"]], c["exports"], True
+    per = max(1, n // 16)
+    jobs = []
+    for j in range(16):
+        cfg = tlc.cfg_text(spec="RSpec2", constants=normgen.consts(5, 25, 3, 2, True, kind, withviol),
+                           invariants=["IndentIsDepth", "DepthZeroAtTop", "Feasible", "RespellWellFormed", "ExportInv"])
+        jobs.append(dict(name=f"rsp-{kind}{int(withviol)}-{j}", root="RespellProgMC", defs={}, cfg=cfg, workers=1, timeout=1800,
+                         simulate=f"num={per}", depth=420, seed=sd * 1000 + j + (700 if withviol else 0)))
+    rs = tlc.run_many(jobs)
+    exports = []
+    for r in rs:
+        exports.extend(r.exports)
+        r.exports = []
+    stats = [dict(distinct=r.distinct, generated=r.generated, wall=r.wall, ok=r.ok, violated=r.violated, error=r.error,
+                  stdout_path=r.stdout_path) for r in rs]
+    if all(r.ok for r in rs):
+        cache.put(k, dict(stats=stats, exports=exports))
+    return [lexmodel.Stat(s) for s in stats], exports, False
+
+
+def _work_prog(job):
+    import normgen
+    from concretise import Speller
+    rec, sd = job["rec"], job["seed"]
+    n1, t1, lm1 = normgen.render(rec, speller=Speller(sd), prog_key="prog", salt_by="index")
+    n2, t2, lm2 = normgen.render(rec, speller=Speller(sd), prog_key="prog2", salt_by="index")
+    o1, o2 = observe.lex(t1, n1), observe.lex(t2, n2)
+    same_tokens = o1["exc"] is None and o2["exc"] is None and tt(o1) == tt(o2)
+    res = dict(idx=job["idx"], same_tokens=same_tokens, mode=rec["rs"]["mode"], differs=t1 != t2)
+    diag_ok = True
+    if same_tokens and rec["rs"]["mode"].startswith("braces") or (same_tokens and rec["rs"]["mode"].startswith("one_line") and False):
+        f1, f2 = observe.run_file(t1, n1), observe.run_file(t2, n2)
+        long_lines = {lm2[i - 1] for i in rec["rs"]["long"]}
+        d1 = sorted((d[1], d[2]) for d in f1["diags"])
+        d2 = sorted((d[1], d[2]) for d in f2["diags"] if not (d[1] == "LINE_TOO_LONG" and d[2] in long_lines))
+        diag_ok = d1 == d2 and bool(f1["fatal"]) == bool(f2["fatal"]) and f1["exc"] == f2["exc"]
+        if not diag_ok:
+            res.update(d1=d1[:10], d2=d2[:10], fatal=[f1["fatal"], f2["fatal"]], exc=[f1["exc"], f2["exc"]])
+    res["diag_ok"] = diag_ok
+    if not same_tokens or not diag_ok or job.get("keep"):
+        res.update(text=t1, text2=t2)
+        if not same_tokens:
+            a, b = tt(o1), tt(o2)
+            k = next((i for i, (x, y) in enumerate(zip(a, b)) if x != y), min(len(a), len(b)))
+            res.update(first_diff=k, tok1=a[max(0, k - 2):k + 3], tok2=b[max(0, k - 2):k + 3], lexexc=[o1["exc"], o2["exc"]])
+    return res
+
+
+def program_level(R, tier):
+    import driverprops
+    from common import seed as verif_seed
+    sd = verif_seed()
+    recs = []
+    for kind in ("c", "h"):
+        for wv in (False, True):
+            try:
+                stats, exports, was_cached = prog_corpus(tier, kind, wv)
+            except Exception as e:  # noqa
+                R.machinery(f"TLC RespellProg: {e}")
+                return
+            R.add_tlc(f"RespellProg/{kind}/{'violating' if wv else 'conforming'}", stats, cached=was_cached)
+            bad = [s for s in stats if not s.ok]
+            if bad:
+                b = bad[0]
+                if b.violated:
+                    R.violation(dict(kind="tlc_invariant", module="RespellProg", invariant=b.violated, detail=(b.error or "")[:2000]))
+                    continue
+                R.machinery(f"TLC RespellProg: {b.error}")
+                return
+            recs += exports
+    R.cov["exhaustive"] = False
+    jobs = [dict(rec=rec, seed=sd * 23 + 1, idx=i, keep=(i % 499 == 0)) for i, rec in enumerate(recs)]
+    for w in driverprops.pool_map(_work_prog, jobs):
+        rec = recs[w["idx"]]
+        R.case(("prog", w["idx"], w["mode"]), nontrivial=w["differs"])
+        if w["same_tokens"] and w["diag_ok"]:
+            R.validated()
+            if "text" in w and w["differs"] and len(R.cov["samples"]) < 5:
+                la, lb = w["text"].split("\n"), w["text2"].split("\n")
+                R.sample(dict(level="program", mode=w["mode"], differing_lines=[(x, y) for x, y in zip(la, lb) if x != y][:3]))
+            continue
+        if not w["same_tokens"]:
+            R.violation(dict(kind="respell_program_tokens", mode=w["mode"], rs=rec["rs"], first_diff=w.get("first_diff"), plain=w.get("tok1"),
+                             respelled=w.get("tok2"), exc=w.get("lexexc"), text=w["text"], text2=w["text2"]))
+        else:
+            R.violation(dict(kind="respell_program_diagnostics", mode=w["mode"], rs=rec["rs"], diags_plain=w.get("d1"), diags_respelled=w.get("d2"),
+                             fatal=w.get("fatal"), exc=w.get("exc"), text=w["text"], text2=w["text2"]))
+
+
 def replay(pid, path):
     import json
     rec = json.load(open(path))
+    if "text" in rec:
+        oa, ob = observe.lex(rec["text"]), observe.lex(rec["text2"])
+        print("tokens equal:", tt(oa) == tt(ob), oa["exc"], ob["exc"])
+        if oa["exc"] or ob["exc"] or tt(oa) != tt(ob):
+            print(f"VIOLATION property={pid} replay={path}")
+            return 1
+        return 0
     oa, ob = observe.lex(rec["plain"]), observe.lex(rec["respelled"])
     print("plain    :", tt(oa), oa["exc"])
     print("respelled:", tt(ob), ob["exc"])
